@@ -58,6 +58,20 @@ func famC20(g *Gen, o *Out, n int, thorough bool) {
 		eff := wo
 		if target == "path" {
 			dcw = deferred.NewDeferredCarWriterForPath(p, roots, wo.opts()...)
+		} else if streamFile := c%3 == 2 && !sv2; streamFile {
+			// a stream that can also WriteAt and is not at position 0: an *os.File the caller has already
+			// written 16 bytes through. A direct writer on such a stream writes from offset 0 (it sees the
+			// WriterAt), and so must the deferred one: the 16 bytes are overwritten by the header
+			f, err := os.OpenFile(p, os.O_RDWR|os.O_CREATE|os.O_TRUNC, 0o644)
+			if err != nil {
+				panic(err)
+			}
+			defer f.Close()
+			old = []byte("0123456789abcdef")
+			f.Write(old)
+			dcw = deferred.NewDeferredCarWriterForStream(f, roots, wo.opts()...)
+			eff.v1 = true
+			target = "streamfile"
 		} else {
 			dcw = deferred.NewDeferredCarWriterForStream(&plainWriter{&buf}, roots, wo.opts()...)
 			eff.v1 = true
@@ -81,7 +95,11 @@ func famC20(g *Gen, o *Out, n int, thorough bool) {
 			}
 			return "exists=1 out=" + hexOr(b)
 		}
-		o.Line(fmt.Sprintf("dopen target=%s pre=%s sv2=%d %s roots=%s", target, pre, b2i(sv2), wo, rootsArg(roots)), "r=ok "+state())
+		lineTarget := target
+		if target == "streamfile" {
+			lineTarget = "stream" // for model and specification it is a stream target
+		}
+		o.Line(fmt.Sprintf("dopen target=%s pre=%s sv2=%d %s roots=%s", lineTarget, pre, b2i(sv2), wo, rootsArg(roots)), "r=ok "+state())
 		o.Count("pre/" + pre)
 		var fired []string
 		nextID := 1
